@@ -4,7 +4,7 @@
    counter factory, every callee kind x argument count x arity, positional binding with distinct arguments,
    and functions stored in variables, arrays, objects and returned from functions. *)
 EXTENDS BornoSem, SequencesExt, SanitySets
-CONSTANTS CtxDepth, HistLen, EmitOn
+CONSTANTS CtxDepth, HistLen, EmitOn, Stress
 
 Num(i) == Lit(N(i))
 Str(s) == Lit(S(s))
@@ -103,6 +103,15 @@ ClosureCases ==
                    SPrint(Bin("+", Call(Id("t3"), <<>>), Num(1))), SPrint(Call(Id("len"), <<Arr(<<Call(Id("e"), <<>>)>>)>>)), SPrint(Un("!", Call(Id("z"), <<>>))), SPrint(Log("or", Call(Id("nl"), <<>>), Num(5))),
                    SVar("h", Obj(<<"a">>, <<Num(1)>>)), SExpr(PAsg(Id("h"), "s", Call(Id("t3"), <<>>))), SPrint(Id("h")), SPrint(Bin("==", Prop(Id("h"), "s"), Call(Id("t3"), <<>>))) >>,
           c |-> "return:literal-values", key |-> "return:literal-values"],
+         \* a bare return after valued returns have happened; thousands of calls that end through return
+         [t |-> << SFun("val", <<"x">>, <<SReturn(Bin("+", Id("x"), Num(1)))>>),
+                   SFun("find", <<"a", "x">>, << SFor(SVar("i", Num(0)), Bin("<", Id("i"), Call(Id("len"), <<Id("a")>>)), Asg("i", Bin("+", Id("i"), Num(1))),
+                                                      SBlock(<<SIf(Bin("==", Idx(Id("a"), Id("i")), Id("x")), SReturn(Id("i")), None)>>)), SReturn(None) >>),
+                   SPrint(Call(Id("val"), <<Num(1)>>)), SPrint(Call(Id("find"), <<Arr(<<Num(5), Num(6)>>), Num(6)>>)), SPrint(Call(Id("find"), <<Arr(<<Num(5), Num(6)>>), Num(7)>>)),
+                   SPrint(Call(Id("val"), <<Num(8)>>)), SPrint(Call(Id("find"), <<Arr(<<>>), Num(1)>>)),
+                   SFun("lim", <<"n">>, << SWhile(Lit(VBool(TRUE)), SBlock(<< SIf(Bin(">", Id("n"), Num(1)), SReturn(None), None), SReturn(Id("n")) >>)) >>),
+                   SPrint(Call(Id("lim"), <<Num(1)>>)), SPrint(Call(Id("lim"), <<Num(2)>>)), SPrint(Arr(<<Call(Id("lim"), <<Num(0)>>), Call(Id("lim"), <<Num(5)>>)>>)) >>,
+          c |-> "return:bare-after-valued", key |-> "return:bare-after-valued"],
          \* the function's own name inside its body: an assignment to it in one activation is not what another activation sees
          [t |-> << SFun("f", <<"n">>, << SIf(Bin("==", Id("n"), Num(0)), SBlock(<< SExpr(Asg("f", Num(7))), SPrint(Id("f")), SReturn(Num(0)) >>), None),
                                         SVar("r", Call(Id("f"), <<Bin("-", Id("n"), Num(1))>>)), SPrint(Bin("==", Id("f"), Num(7))), SReturn(Bin("+", Id("r"), Num(1))) >>),
@@ -178,7 +187,16 @@ ValueCases ==
               SFun("noret", <<>>, <<SVar("q", Num(1))>>), SPrint(Call(Id("noret"), <<>>)),
               SFun("f", <<>>, <<SReturn(Str("redefined"))>>), SPrint(Call(Id("f"), <<>>)) >>, c |-> "value:nested-decl", key |-> "value:nested-decl"] }
 
-Cases == SetToSeq(ReturnCases \cup RecCases \cup ClosureCases \cup CalleeCases \cup BindCases \cup ValueCases)
+(* thorough tier only: thousands of calls that end through return (the scopes of finished calls are never freed in the
+   model, so the run is quadratic for TLC: minutes) *)
+StressCases == IF ~Stress THEN {} ELSE {
+         [t |-> << SFun("k", <<"x">>, <<SReturn(Bin("+", Id("x"), Num(1)))>>), SVar("i", Num(0)), SVar("s", Num(0)),
+                   SWhile(Bin("<", Id("i"), Num(2600)), SBlock(<< SExpr(Asg("s", Call(Id("k"), <<Id("s")>>))), SExpr(Asg("i", Call(Id("k"), <<Id("i")>>))) >>)),
+                   SPrint(Id("s")), SFun("sum", <<"n">>, << SIf(Bin("==", Id("n"), Num(0)), SReturn(Num(0)), None), SReturn(Bin("+", Id("n"), Call(Id("sum"), <<Bin("-", Id("n"), Num(1))>>))) >>),
+                   SPrint(Call(Id("sum"), <<Num(10)>>)), SPrint(Call(Id("k"), <<Num(1)>>)) >>,
+          c |-> "calls:many", key |-> "calls:5200-returns"] }
+
+Cases == SetToSeq(ReturnCases \cup RecCases \cup ClosureCases \cup CalleeCases \cup BindCases \cup ValueCases \cup StressCases)
 Programs == TLCEval([i \in 1..Len(Cases) |-> LayoutProg(Cases[i].t, 1)])
 FamProgOf(i) == Programs[i]
 Init == \E i \in 1..Len(Programs) : InitSem(i, <<>>, FALSE)
